@@ -18,6 +18,7 @@ from vf.core import Result, CURRENT_CASE
 import ply.lex
 import yaql
 from yaql import legacy as ylegacy
+from yaql.language import factory
 
 ID = 'C01'
 TITLE = 'shared engine parses each text as if alone'
@@ -29,13 +30,14 @@ ASSUMPTIONS = ['exactly one thread runs at a time under the baton scheduler; swi
                'hook wrappers around ply.lex.Lexer.input/token/clone only yield to the scheduler',
                'an engine is reused between executions; every reported violation is first replayed twice on a fresh engine']
 BOUNDS = {
-    'quick': 'E2: 14 texts x 3 engine kinds to fixpoint; E1: all pairs of 8 texts, all interleavings when <= 4000 else preemption bound 3; '
+    'quick': 'E2: 17 texts (2 of them preceded by the creation of another engine with a customised operator table) x 3 engine kinds to fixpoint; E1: all pairs of 8 texts, all interleavings when <= 4000 else preemption bound 3; '
              'all 3-multisets of 4 texts with preemption bound 2; line-granularity bound 1 for 3 ordered pairs on a warm engine and 1 pair on a fresh engine per schedule',
-    'thorough': 'E2: 40 texts x 3 engine kinds; E1: all pairs of 16 texts, all interleavings when <= 400000 else bound 4; 3 threads exhaustive '
+    'thorough': 'E2: 43 texts x 3 engine kinds; E1: all pairs of 16 texts, all interleavings when <= 400000 else bound 4; 3 threads exhaustive '
                 'where <= 60000 schedules else bound 3; two-text thread bodies; line-granularity bound 1 for all ordered pairs of 12 texts; yaql.eval path',
 }
 
-TEXTS_Q = ['1', 'a.b', '1 + 2', 'f(x)', '[1, 2]', "'s'", '$a.b(c)', '1 # 2', "'abc", '__x', '1 +', 'a b', ')', '']
+TEXTS_Q = ['1', 'a.b', '1 + 2', 'f(x)', '[1, 2]', "'s'", '$a.b(c)', '1 # 2', "'abc", '__x', '1 +', 'a b', ')', '',
+           '1 = 2', '\u00a41 = 2', '\u00a4a != b']
 TEXTS_T = TEXTS_Q + ['$', 'true', 'a.b.c', '-1', 'not true', 'a -> b', 'f(1, 2)', 'f(, 1)', 'f(a => 1)', '{a => b}',
                      '[1][0]', 'a?.b', '1 < 2 and 3 > 2', '"d"', '`v`', 'x in y', '1.5', 'a.b(', '(1', '1 2', "'\\x41'",
                      'f(a =>', '$ $', '1 ! 2', 'a =~ b', '(a)(b)']
@@ -56,7 +58,20 @@ def make_engine(kind):
 OPT = '\u00a7'      # a text written with this prefix is parsed with per-call options: engine(text, {...})
 
 
+OTHER = '\u00a4'    # before this parse another engine with a customised operator table is created in the process
+
+
+def _another_engine():
+    f = yaql.YaqlFactory()
+    f.insert_operator(None, True, ':', factory.OperatorType.BINARY_LEFT_ASSOCIATIVE, True)
+    return f.create()
+
+
 def parse_outcome(engine, text):
+    if text.startswith(OTHER):
+        other = _another_engine()
+        other('1 : 2')
+        text = text[1:]
     try:
         if text.startswith(OPT):
             st = engine(text[1:], {'yaql.limitIterators': 7})
@@ -72,6 +87,8 @@ _base = {}
 
 def baseline(kind, text):
     """Outcome of `text` on a fresh engine that has parsed nothing else."""
+    if text.startswith(OTHER):
+        text = text[1:]     # what else the process builds is not part of what a parse may depend on
     k = (kind, text)
     if k not in _base:
         _base[k] = parse_outcome(make_engine(kind), text)
